@@ -295,6 +295,6 @@ pub fn resolve_text(t: &Text, len: usize, cap: usize) -> String {
             let u = if unit.is_ascii() { *unit } else { 'x' };
             std::iter::repeat_n(u, cap.saturating_sub(len).min(64 << 20)).collect()
         }
-        Text::Repeat { n, unit } => std::iter::repeat_n(*unit, (*n).min(64 << 20)).collect(),
+        Text::Repeat { n, unit } => std::iter::repeat_n(*unit, (*n).min(192 << 20)).collect(),
     }
 }
